@@ -730,6 +730,12 @@ orc_compiler_check_sizes (OrcCompiler *compiler)
         compiler->result = ORC_COMPILE_RESULT_UNKNOWN_PARSE;
         return;
       }
+      if (multiplier * opcode->dest_size[j] > ORC_MAX_VAR_SIZE) {
+        ORC_COMPILER_ERROR (compiler, "opcode %s dest[%d] needs a %d-byte variable, the limit is %d",
+            opcode->name, j, multiplier * opcode->dest_size[j], ORC_MAX_VAR_SIZE);
+        compiler->result = ORC_COMPILE_RESULT_UNKNOWN_PARSE;
+        return;
+      }
       max_size = MAX(max_size, multiplier * opcode->dest_size[j]);
     }
     for(j=0;j<ORC_STATIC_OPCODE_N_SRC;j++){
@@ -749,6 +755,14 @@ orc_compiler_check_sizes (OrcCompiler *compiler)
           compiler->vars[insn->src_args[j]].vartype != ORC_VAR_TYPE_CONST) {
         ORC_COMPILER_ERROR(compiler, "opcode %s requires const or param source",
             opcode->name);
+        compiler->result = ORC_COMPILE_RESULT_UNKNOWN_PARSE;
+        return;
+      }
+      if (multiplier * opcode->src_size[j] > ORC_MAX_VAR_SIZE &&
+          compiler->vars[insn->src_args[j]].vartype != ORC_VAR_TYPE_PARAM &&
+          compiler->vars[insn->src_args[j]].vartype != ORC_VAR_TYPE_CONST) {
+        ORC_COMPILER_ERROR (compiler, "opcode %s src[%d] needs a %d-byte variable, the limit is %d",
+            opcode->name, j, multiplier * opcode->src_size[j], ORC_MAX_VAR_SIZE);
         compiler->result = ORC_COMPILE_RESULT_UNKNOWN_PARSE;
         return;
       }
